@@ -590,10 +590,12 @@ void do_add(World &w, int task, const Op &op)
     InOp io;
     if (direct)
     {
+      // up-down kinds record negative values, as through the instrument API below
+      int64_t sv = (kind == I_UPDOWN_LONG || kind == I_UPDOWN_DOUBLE) ? -unit : unit;
       if (is_double(kind))
-        w.storage->RecordDouble((double)unit, attrs, opentelemetry::context::Context{});
+        w.storage->RecordDouble((double)sv, attrs, opentelemetry::context::Context{});
       else
-        w.storage->RecordLong(unit, attrs, opentelemetry::context::Context{});
+        w.storage->RecordLong(sv, attrs, opentelemetry::context::Context{});
     }
     else
     {
@@ -1248,6 +1250,14 @@ void check(const Case &c, const vsim::RunResult &)
               if (col.ret > m1->inv && col.inv < m2->ret)
                 same_interval = false;
             if (same_interval)
+              report_for(c, "C06.under_other_attribute_set",
+                         fmt("reader %d stream %s: measurement #%lld for {%s} was reported in the "
+                             "overflow series although the set owns a series in that interval "
+                             "(measurement #%lld)",
+                             r, st.name.c_str(), (long long)m2->digit,
+                             canon_attrs(attrs_of(m1->attr_id, st.mask)).c_str(),
+                             (long long)m1->digit));
+            if (same_interval)
               report_for(c, "C08.admitted_set_overflowed",
                          fmt("reader %d stream %s: measurement #%lld landed in its own series "
                              "{%s} but the later measurement #%lld with the same attribute set, "
@@ -1384,7 +1394,10 @@ void generate(const std::string &prop, Rng &wl, Rng &fl, Case &c)
     c.set(fmt("temp%d", r).c_str(), (int64_t)wl.below(2));
   std::string stratum = "api";
   bool direct         = false;
-  if (prop == "C08" && wl.chance(0.45))
+  // direct SyncMetricStorage with an explicit small cardinality limit: C08's limit clauses, and
+  // for C06 "what was recorded for that set" when the interval map is full (a set that owns a
+  // series keeps receiving its measurements)
+  if ((prop == "C08" && wl.chance(0.45)) || (prop == "C06" && wl.chance(0.12)))
   {
     direct  = true;
     ninstr  = 1;
